@@ -377,14 +377,18 @@ def lenField (w : W) : Bytes := ((List.range 14).map (w.dirt w.n)).take 4
 
 theorem lenField_length (w : W) : (lenField w).length = 4 := by simp [lenField]
 
+/-- the size check of Encode is made on a 64-bit value (Tie A): a regression to `uint32(...)` breaks this -/
+theorem ttEncodeSizeCheckBits_eq : Facts.ttEncodeSizeCheckBits = 64 := by decide
+
 /-- Encode on a healthy writer, against the documented layout -/
-theorem encode_layout_lemma (p : EncParam) (w : W) (hb : w.broken = false) (hd : (fp p).Dom) :
+theorem encode_layout_lemma (p : EncParam) (w : W) (hb : w.broken = false) (hd : (fp p).Dom)
+    (h64 : infoSize (fp p) < 2 ^ 64) :
     (infoSize (fp p) > 65536 → encode p w = .err .size) ∧
     (infoSize (fp p) ≤ 65536 → ∃ L, encode p w = .ok (w.n, w.app (metaBytes p w (infoSize (fp p)) :: L)) ∧
         (w.app (metaBytes p w (infoSize (fp p)) :: L)).bytes = w.bytes ++ layout (lenField w) (fp p)) := by
   have hn : (p.strKV.map (·.1)).Nodup := hd.strNodup
   have hr := encode_raw p w hb
-  rw [rawSize_eq p hn] at hr
+  rw [rawSize_eq p hn, ttEncodeSizeCheckBits_eq, Nat.mod_eq_of_lt h64] at hr
   simp only [Facts.ttMaxHeaderSize] at hr
   constructor
   · intro hbig; simpa [hbig] using hr
